@@ -88,7 +88,21 @@ func c08(w *World) {
 	actions := 3 + w.W.Draw(20)
 	for i := 0; i < actions && !sc.P.EOF; i++ {
 		d := lastOut().Add(N) // the running deadline
-		switch w.W.Pick(3, 3, 3, 3, 2, 2, 2, 3) {
+		switch w.W.Pick(3, 3, 3, 3, 2, 2, 2, 3, 3) {
+		case 8:
+			// outbound messages the application did not send: an echo, a Reject, a retransmission —
+			// each of them postpones the next unsolicited Heartbeat by a full interval
+			sleepUntil(d.Add(-time.Duration(1+w.W.Draw(int(N/time.Millisecond)-1)) * time.Millisecond))
+			switch w.W.Draw(3) {
+			case 0:
+				sc.P.Send(sc.Msg("1", F(TagTestReqID, "c8-"+itoa(i))))
+			case 1:
+				sc.P.Send(Build(AdminMsg("0", sc.NextSeq(), sc.PeerID, sc.LibID), WireOpts{BadSum: true}))
+			default:
+				sc.P.Send(sc.Msg("2", FI(TagBeginSeqNo, 1), FI(TagEndSeqNo, 1)))
+			}
+			lastKeep = time.Now()
+			w.Probe("library_originated_outbound")
 		case 7:
 			// the peer goes silent long enough for the library's TestRequest to be outstanding, and comes
 			// back before the disconnect: the session is still logged on and must keep transmitting
